@@ -17,10 +17,30 @@ Import ListNotations.
 
 (* Every invocation of every history - after normal ends, errors at any depth, recovered panics, frame or
    stack exhaustion, cancellation, and under every placement of cancel(ctx_j) and of watcher firings,
-   stale or not - gives exactly what a new VM gives. *)
-Theorem C07_independent : forall (g : Z) (h : list item) (b : obs),
-  In b (exec0 cfg_current g h) -> o_out b = fresh_outcome cfg_current b.
+   stale or not - gives exactly what a new VM gives; the one exception is a Run() that has to resume the main
+   code at the instruction pointer an earlier RunCode left behind (outcome OWild, see C07_refuted_run_after_runcode). *)
+Theorem C07_independent_or_wild : forall (g : Z) (h : list item) (b : obs),
+  In b (exec0 cfg_current g h) ->
+  o_out b = fresh_outcome cfg_current b \/
+  (o_out b = OWild /\ iapi (o_inv b) = ARun /\ ipok (o_vm b) = false).
 Proof. exact independent_current. Qed.
+
+(* Guarded form; the guard is decidable on the observation: the invocation is not a Run, or no RunCode has
+   moved the instruction pointer away from the main code. *)
+Theorem C07_guarded : forall (g : Z) (h : list item) (b : obs),
+  In b (exec0 cfg_current g h) -> (iapi (o_inv b) <> ARun \/ ipok (o_vm b) = true) ->
+  o_out b = fresh_outcome cfg_current b.
+Proof. exact guarded_current. Qed.
+
+(* The two ways a VM is reused in practice satisfy the guard for every invocation:
+   embedding (any sequence of RunCode and Call) ... *)
+Theorem C07_independent_runcode_call : forall (g : Z) (h : list item) (b : obs),
+  existsb inv_is_run h = false -> In b (exec0 cfg_current g h) -> o_out b = fresh_outcome cfg_current b.
+Proof. exact independent_without_run. Qed.
+(* ... and the REPL (any sequence of Run and Call). *)
+Theorem C07_independent_run_call : forall (g : Z) (h : list item) (b : obs),
+  existsb inv_is_runcode h = false -> In b (exec0 cfg_current g h) -> o_out b = fresh_outcome cfg_current b.
+Proof. exact independent_without_runcode. Qed.
 
 (* The halt-flag invariant: the flag the current run polls is set only by a watcher of the current run's own
    context, after that context was cancelled - so no run is ever cut short with a nil error (OStale), and
@@ -37,7 +57,7 @@ Theorem C07_state_restored : forall (g : Z) (h : list item) (b : obs),
   (startCount (o_vm b) = 0 -> H (o_vm b) = 0).
 Proof. exact restored_between_runs. Qed.
 
-(* ------------------------------------------------------------------ regression: the code before each repair *)
+(* ------------------------------------------------------------------ the full statement is false of the code as it is *)
 Definition rc (e : expr) (c : nat) := IInv (mkInv ARunCode e c []).
 Definition rn (e : expr) (c : nat) := IInv (mkInv ARun e c []).
 Definition cl (e : expr) (c : nat) := IInv (mkInv ACall e c []).
@@ -46,7 +66,7 @@ Definition some_differs (cfg : config) (h : list item) : bool := existsb (differ
 (* [differs] is exactly "the outcome on the shared VM is not the outcome on a new VM" *)
 Lemma differs_spec cfg b : differs cfg b = true -> o_out b <> fresh_outcome cfg b.
 Proof.
-  unfold differs. intros D E. rewrite <- E in D. destruct (o_out b) as [[z|]| [] | | |]; cbn in D; try discriminate.
+  unfold differs. intros D E. rewrite <- E in D. destruct (o_out b) as [[z|]| [] | | | |]; cbn in D; try discriminate.
   rewrite Z.eqb_refl in D. discriminate.
 Qed.
 
@@ -54,11 +74,22 @@ Lemma some_differs_witness cfg h :
   some_differs cfg h = true -> exists b, In b (exec0 cfg 0%Z h) /\ differs cfg b = true.
 Proof. intros E. apply existsb_exists. exact E. Qed.
 
+(* Run, RunCode, Run: the second Run starts the main code at the instruction pointer of the RunCode's code *)
+Definition h_run_runcode_run : list item := [rn (Lit 5) 0; rc (Lit 6) 0; rn (Lit 7) 0].
+Theorem C07_refuted_run_after_runcode : exists h b, In b (exec0 cfg_current 0%Z h) /\ differs cfg_current b = true.
+Proof. exists h_run_runcode_run. apply some_differs_witness. vm_compute. reflexivity. Qed.
+Example C07_run_after_runcode_outcomes :
+  map (fun b => (o_out b, fresh_outcome cfg_current b)) (exec0 cfg_current 0%Z h_run_runcode_run) =
+  [(OVal (Some 5%Z), OVal (Some 5%Z)); (OVal (Some 6%Z), OVal (Some 6%Z)); (OWild, OVal (Some 7%Z))].
+Proof. vm_compute. reflexivity. Qed.
+
+(* ------------------------------------------------------------------ regression: the code before each repair *)
 (* before c13bc4b (start() kept the operand stack): independent except that a Call or Run could exhaust the
    stack that earlier failed invocations had left operands on *)
 Theorem C07_nodrop_independent_or_stack : forall (g : Z) (h : list item) (b : obs),
   In b (exec0 cfg_nodrop g h) ->
-  o_out b = fresh_outcome cfg_nodrop b \/ (o_out b = OErr EStack /\ iapi (o_inv b) <> ARunCode).
+  o_out b = fresh_outcome cfg_nodrop b \/ (o_out b = OErr EStack /\ iapi (o_inv b) <> ARunCode) \/
+  (o_out b = OWild /\ iapi (o_inv b) = ARun /\ ipok (o_vm b) = false).
 Proof. exact independent_nodrop. Qed.
 (* ... a RunCode that fails with 600 operands pending, then a Call that needs 600 slots *)
 Definition h_residue : list item := [rc (ListN 600 Raise) 0; cl (ListN 600 (Lit 1)) 1].
@@ -120,9 +151,18 @@ Definition h_mixed : list item :=
     IEnv (Cancel 1); IEnv (Fire 1);
     cl (deep 1100) 3;
     cl (fact 1100) 3;
-    rn (Seq (AddG 2) GetG) 4;
+    rc (Seq (AddG 2) GetG) 4;
     IInv (mkInv ACall (Seq Gate (Lit 3)) 1 [[Fire 6]]) ].
 Example C07_mixed_outcomes :
   map o_out (exec0 cfg_current 0%Z h_mixed) =
   [OErr ECtx; OVal (Some 7%Z); OErr EHost; OErr EFrames; OErr EStack; OVal (Some 2%Z); OErr ECtx].
 Proof. vm_compute. reflexivity. Qed.
+Example C07_mixed_guard : existsb inv_is_run h_mixed = false.
+Proof. reflexivity. Qed.
+Definition h_repl : list item :=
+  [ rn (Seq (AddG 2) GetG) 0; rn (at_depth 2 Raise) 0; cl (Lit 4) 1; IEnv (Cancel 0); IEnv (Fire 0); IEnv (Fire 1);
+    IInv (mkInv ARun (Seq Gate GetG) 2 [[Fire 2]]) ].
+Example C07_repl_outcomes :
+  existsb inv_is_runcode h_repl = false /\
+  map o_out (exec0 cfg_current 0%Z h_repl) = [OVal (Some 2%Z); OErr ERuntime; OVal (Some 4%Z); OVal (Some 2%Z)].
+Proof. split; vm_compute; reflexivity. Qed.
